@@ -60,14 +60,15 @@ PREFIXES = ('', ' ', chr(10), '<!-- c -->', '<?p q?>', '<?xml version="1.0"?>', 
 T_XML = parse_all({'frag': 'parse-xml-fragment($t)', 'doc': 'parse-xml($t)'})
 
 
-@ob(budget=60, tbudget=300, kind='hunt', bound='XML text = prefix (8 prolog variants chosen by the solver) + DOCTYPE declaring an internal entity + element using it: parse-xml and parse-xml-fragment must raise, never expand (expat is C code: bug-hunting only)',
+@ob(budget=60, tbudget=300, kind='hunt', bound='XML text = prefix (8 prolog variants chosen by the solver) + padding comment/PI of 0, 4 000, 70 000 or 140 000 characters + DOCTYPE declaring an internal entity + element using it: parse-xml and parse-xml-fragment must raise, never expand (expat is C code: bug-hunting only)',
     funcs=['elementpath/xpath30/_xpath30_functions.py:parse-xml/parse-xml-fragment', 'elementpath/etree.py:defuse_xml'])
-def entities_rejected(pi: int, frag: bool) -> bool:
+def entities_rejected(pi: int, frag: bool, padk: int) -> bool:
     """
-    pre: 0 <= pi <= 7
+    pre: 0 <= pi <= 7 and 0 <= padk <= 3
     post: _
     """
-    text = PREFIXES[pi] + '<!DOCTYPE d [<!ENTITY e "boom">]><d>&e;</d>'
+    pad = ('', '<!--' + ' ' * 4000 + '-->', '<!--' + 'x' * 70000 + '-->', '<?p ' + 'y' * 140000 + '?>')[padk]    # prolog padding beyond 64 KiB / 128 KiB
+    text = PREFIXES[pi] + pad + '<!DOCTYPE d [<!ENTITY e "boom">]><d>&e;</d>'
     try:
         r = T_XML['frag' if frag else 'doc'].evaluate(XPathContext(item=1, variables={'t': text}))
     except ElementPathError:
